@@ -164,9 +164,15 @@ def _square_of(t, inner_pred):
 def reducer_verdict(kind: str, term, vals: tuple):
     """True: recognised correct reducer of the whole list; False: recognised wrong one;
     None: not recognised (undecided)."""
+    def other_values(names):
+        # the right reducer applied to a different collection of values
+        return _is(term, *names) and term.args and isinstance(term.args[0], tuple) and term.args[0] != vals
+
     if kind == "AVG":
         if _mean_of(term, vals):
             return True
+        if other_values(("numpy.mean", "numpy.average", "statistics.mean", "statistics.fmean")):
+            return False
         if _is(term, "binop:Div") and _is(term.args[0], "numpy.sum", "sum", "math.fsum") and term.args[0].args[:1] == (vals,) and (term.args[1] == len(vals) or (_is(term.args[1], "len") and term.args[1].args[:1] == (vals,))):
             return True
         if _is(term, "numpy.median", "numpy.sum", "numpy.max", "numpy.min", "numpy.std", "numpy.nanmean"):
@@ -181,7 +187,9 @@ def reducer_verdict(kind: str, term, vals: tuple):
             return dd == 0
         if _is(term, "statistics.pstdev") and term.args[:1] == (vals,):
             return True
-        if _is(term, "statistics.stdev", "numpy.nanstd", "numpy.var"):
+        if _is(term, "statistics.stdev", "numpy.nanstd", "numpy.var", "numpy.mean", "numpy.average", "numpy.sum", "numpy.min", "numpy.max", "numpy.median"):
+            return False
+        if other_values(("numpy.std", "statistics.pstdev")):
             return False
         if _is(term, "numpy.sqrt", "math.sqrt"):
             inner = term.args[0]
@@ -198,6 +206,8 @@ def reducer_verdict(kind: str, term, vals: tuple):
     others = {"numpy.sum", "numpy.min", "numpy.amin", "numpy.max", "numpy.amax", "numpy.mean", "numpy.average", "min", "max", "sum"} - set(simple)
     if _is(term, *simple) and term.args[:1] == (vals,) and not term.kwargs:
         return True
+    if other_values(simple):
+        return False
     if _is(term, *others):
         return False
     return None
